@@ -64,10 +64,6 @@ pub struct Domains {
     /// rich-indexer: indexed args / data may extend a non-empty all-0xff byte string that is searched as a prefix
     #[serde(default)]
     pub rich_all_ff_prefix: bool,
-    /// rich-indexer: ungrouped get_transactions may be paged so that a page lies entirely inside
-    /// one transaction some of whose rows were already on the page before
-    #[serde(default)]
-    pub rich_txs_cursor_within_tx: bool,
 }
 
 #[derive(Clone, Debug, Serialize, Deserialize)]
@@ -336,13 +332,12 @@ pub fn gen_scenario(seed: u64, suspects: bool, rich: bool) -> Scenario {
     let prune_interval = r.range(1, 6);
     let dom = if rich {
         // the three domains in which the RocksDB indexer deviates are ordinary inputs for the
-        // rich-indexer; its own two deviation domains are entered by the --suspects part only
+        // rich-indexer; its own deviation domain (all-0xff prefixes) is entered by the --suspects part only
         Domains {
             zero_args: r.chance(1, 2),
             capacity_script_len_range: true,
             rollback_to_empty: true,
-            rich_all_ff_prefix: suspects && r.chance(2, 3),
-            rich_txs_cursor_within_tx: suspects && r.chance(2, 3),
+            rich_all_ff_prefix: suspects && r.chance(4, 5),
         }
     } else if suspects {
         Domains {
@@ -542,7 +537,7 @@ impl<'a> Exec<'a> {
     fn run_query(&mut self, q: &QuerySpec, wher: &str) -> Option<String> {
         let st = self.state();
         let tip = self.tip_of(self.idx);
-        let out = check_query(&self.be, &self.sc.scripts, q, &st, tip, &mut self.res.probes, self.sc.domains);
+        let out = check_query(&self.be, &self.sc.scripts, q, &st, tip, &mut self.res.probes);
         match out {
             Ok(summary) => Some(summary),
             Err((class, detail)) => {
